@@ -50,6 +50,7 @@ type Violation struct {
 	Line     json.RawMessage `json:"line"`
 	Seed     uint64 `json:"seed"`
 	Tier     string `json:"tier"`
+	X        string `json:"x,omitempty"` // family specific options of the run
 }
 
 type Runner struct {
@@ -61,6 +62,7 @@ type Runner struct {
 	repN  map[string]int
 	kfHit map[string]bool
 	extra  string
+	serial bool
 	tlclog *os.File
 }
 
@@ -112,6 +114,7 @@ func main() {
 	case "replay":
 		r := NewRunner(cfg)
 		r.extra = *extra
+		r.serial = optVal(*extra, "serial", "") == "1"
 		if *tlclog != "" {
 			f, err := os.Create(*tlclog)
 			if err != nil {
@@ -134,6 +137,8 @@ func main() {
 		os.Exit(2)
 	}
 }
+
+func (r *Runner) logEvent(v any) { r.advTraceLine(v) }
 
 var subcommands = map[string]func(cfg Config, in io.Reader, extra string, workers int) int{}
 
@@ -316,7 +321,7 @@ func (r *Runner) writeReplay(prop string, f *Fail, l *Line) string {
 	h.Write([]byte(l.raw))
 	h.Write([]byte(f.Inst + f.Cat))
 	path := filepath.Join(r.cfg.OutDir, fmt.Sprintf("%s-%s-%016x.json", prop, l.Fam, h.Sum64()))
-	v := Violation{Property: prop, Family: l.Fam, Fail: *f, Line: json.RawMessage(l.raw), Seed: r.cfg.Seed, Tier: r.cfg.Tier}
+	v := Violation{Property: prop, Family: l.Fam, Fail: *f, Line: json.RawMessage(l.raw), Seed: r.cfg.Seed, Tier: r.cfg.Tier, X: stripTrace(r.extra)}
 	b, _ := json.MarshalIndent(v, "", " ")
 	os.WriteFile(path, b, 0o644)
 	return path
@@ -351,6 +356,8 @@ func replayOne(cfg Config, path string) int {
 		return f(cfg, &v)
 	}
 	r := NewRunner(cfg)
+	r.extra = v.X
+	r.serial = optVal(v.X, "serial", "") == "1"
 	l, _, err := parseTLCLine(string(v.Line))
 	if err != nil {
 		fmt.Fprintln(os.Stderr, "ERROR", err)
@@ -367,6 +374,17 @@ func replayOne(cfg Config, path string) int {
 	}
 	fmt.Println("NOT-REPRODUCED")
 	return 0
+}
+
+// stripTrace removes the trace file option (a replay writes no trace).
+func stripTrace(x string) string {
+	out := []string{}
+	for _, kv := range strings.Split(x, ",") {
+		if kv != "" && !strings.HasPrefix(kv, "trace=") {
+			out = append(out, kv)
+		}
+	}
+	return strings.Join(out, ",")
 }
 
 var replayers = map[string]func(cfg Config, v *Violation) int{}
